@@ -4,6 +4,7 @@ from .. import apirun
 
 def run(report, tier):
     apirun.run_config(report, 'MC_C11')
+    apirun.run_config(report, 'MC_C11M')
     if tier == 'thorough':
         apirun.run_config(report, 'MC_C11', overrides={'MaxCalls': 3}, tag='deep')
     return report.finish(
